@@ -327,6 +327,16 @@ func getTagType(v reflect.Value) (byte, reflect.Value) {
 		}
 	}
 
+	// Marshaler implemented on the pointer receiver of an addressable value
+	// (e.g. a dynbt.Value struct field reached through a pointer to the struct).
+	if v.CanAddr() {
+		if pv := v.Addr(); pv.Type().NumMethod() > 0 && pv.CanInterface() {
+			if u, ok := pv.Interface().(Marshaler); ok {
+				return u.TagType(), pv
+			}
+		}
+	}
+
 	switch v.Kind() {
 	case reflect.Array, reflect.Slice:
 		var elemType byte
